@@ -175,6 +175,30 @@ def native(seed=0):
     layer = tdgl.Layer(coherence_length=0.5, london_lambda=0.5, thickness=0.1, gamma=1)
     dev = tdgl.Device("d", layer=layer, film=tdgl.Polygon("film", points=box(4, 2)), length_units="um")
     dev.make_mesh(max_edge_length=0.5, smooth=10)
+    # one Polyak iteration of the REAL solver method: the error it reports must be the relative mismatch between the previous iterate and
+    # the kernel sum (recomputed here with the kernel into a separate buffer), whatever the step size
+    from tdgl.solver.solver import TDGLSolver
+    for alpha, beta in ((0.1, 0.5), (0.5, 0.5), (0.02, 0.9), (1.0, 0.5)):
+        o = tdgl.SolverOptions(solve_time=1, include_screening=True, screening_step_size=alpha, screening_step_drag=beta)
+        sv = TDGLSolver(dev, o, applied_vector_potential=0.3)
+        A0 = rng.normal(size=(sv.num_edges, 2)) * 1e-3
+        v0 = rng.normal(size=(sv.num_edges, 2)) * 1e-4
+        Jc = rng.normal(size=sv.num_edges)
+        J_site = dev.mesh.get_quantity_on_site(Jc)
+        K = np.full((sv.num_edges, 2), np.nan)
+        get_A_induced_numba(J_site, sv.areas, sv.sites, sv.edge_centers, K)
+        A_prev = A0.copy()
+        A_vals, vel = [A0.copy(), A0], [v0.copy(), v0]
+        A_next, err = sv.get_induced_vector_potential(Jc, A_vals, vel)
+        n += 1
+        want_v = (1 - beta) * v0 + alpha * (K - A_prev)
+        want_A = A_prev + want_v
+        want_err = float(np.max(np.linalg.norm(K - A_prev, axis=1) / np.maximum(np.linalg.norm(want_A, axis=1), 1e-20)))
+        if not np.allclose(A_next, want_A, rtol=1e-10, atol=1e-14):
+            bad.append(dict(what="Polyak iterate differs from A_prev + (1-beta) v + alpha (K - A_prev)", alpha=alpha, beta=beta, max_abs_dev=float(np.abs(A_next - want_A).max())))
+        elif not abs(err - want_err) <= 1e-9 * max(1.0, want_err):
+            bad.append(dict(what="reported screening error is not the relative mismatch between the previous iterate and the kernel sum", screening_step_size=alpha,
+                            screening_step_drag=beta, reported=float(err), mismatch=want_err, ratio=float(err / want_err)))
     for budget, tol, expect_raise in ((3, 1e-6, True), (1000, 1e-2, False)):
         with tempfile.TemporaryDirectory() as td:
             opts = tdgl.SolverOptions(solve_time=0.5, output_file=os.path.join(td, "o.h5"), include_screening=True, max_iterations_per_step=budget,
